@@ -25,6 +25,7 @@ import (
 	"net"
 	"net/http"
 	"net/http/httptest"
+	"net/url"
 	"os"
 	"path/filepath"
 	"sort"
@@ -34,6 +35,8 @@ import (
 	"testing"
 	"time"
 
+	ssi "github.com/nuts-foundation/go-did"
+	"github.com/nuts-foundation/go-did/vc"
 	"github.com/nuts-foundation/nuts-node/auth"
 	"github.com/nuts-foundation/nuts-node/auth/oauth"
 	"github.com/nuts-foundation/nuts-node/auth/services"
@@ -60,6 +63,9 @@ type xOp struct {
 	Crypto  string   `json:"crypto,omitempty"`
 	SQL     bool     `json:"sql,omitempty"`
 	Dummy   bool     `json:"dummy,omitempty"`
+	DummyName string `json:"dummyname,omitempty"` // spelling of the test-only means in auth.contractvalidators (dummy, Dummy, DUMMY, ...)
+	Allow   []string `json:"allow,omitempty"`     // ctx: jsonld.contexts.remoteallowlist in effect
+	Fetches int      `json:"fetches,omitempty"`   // ctx: oracle data — outbound fetches the real loader attempted
 	Irma    string   `json:"irma,omitempty"`
 	Legacy  string   `json:"legacy,omitempty"`    // moved key set in the config file, e.g. network.certfile
 	LegacyEnv bool   `json:"legacyenv,omitempty"` // ... set through the environment instead
@@ -162,7 +168,11 @@ func xConfigYAML(op xOp, dir string) string {
 	}
 	vals := "employeeid"
 	if op.Dummy {
-		vals = "dummy,employeeid"
+		name := op.DummyName
+		if name == "" {
+			name = "dummy"
+		}
+		vals = name + ",employeeid"
 	}
 	fmt.Fprintf(&sb, "auth:\n  contractvalidators: [%s]\n", vals)
 	if op.Irma != "" {
@@ -281,6 +291,34 @@ func (s *xSock) tlsConfig() *tls.Config {
 }
 
 // ---------- executing one op
+
+type xRecordingRT struct{ n int }
+
+func (r *xRecordingRT) RoundTrip(req *http.Request) (*http.Response, error) {
+	r.n++
+	return nil, fmt.Errorf("verif: no network")
+}
+
+// xCtx drives the REAL JSON-LD loader of a configured jsonld engine with one URL; outbound fetches are counted by a
+// recording transport that replaces http.DefaultTransport (json-gold's default loader uses http.DefaultClient)
+func xCtx(op *xOp) string {
+	inst := jsonld.NewJSONLDInstance()
+	cfg := inst.(core.Injectable).Config().(*jsonld.Config)
+	cfg.Contexts.RemoteAllowList = op.Allow
+	if err := inst.(core.Configurable).Configure(core.ServerConfig{Strictmode: op.Strict}); err != nil {
+		return "ctx configure-error:" + err.Error()
+	}
+	rt := &xRecordingRT{}
+	old := http.DefaultTransport
+	http.DefaultTransport = rt
+	defer func() { http.DefaultTransport = old }()
+	_, err := inst.DocumentLoader().LoadDocument(xunhx(op.S))
+	op.Fetches = rt.n
+	if err != nil && strings.Contains(err.Error(), "context not on the remoteallowlist") {
+		return "ctx refused"
+	}
+	return "ctx passed"
+}
 
 func xExec(t *testing.T, op xOp, sock **xSock) (line string) {
 	defer func() {
@@ -437,6 +475,14 @@ func xExec(t *testing.T, op xOp, sock **xSock) (line string) {
 					dummy = "absent"
 				} else {
 					dummy = "registered"
+				}
+				_, err = v.ContractNotary().VerifyVP(vc.VerifiablePresentation{Type: []ssi.URI{vc.VerifiablePresentationTypeV1URI(), ssi.MustParseURI("DummyVerifiablePresentation")}}, nil)
+				if err == nil || !strings.Contains(err.Error(), "unknown VerifiablePresentation type") {
+					if dummy == "absent" {
+						dummy = "verifier-only"
+					}
+				} else if dummy == "registered" {
+					dummy = "signer-only"
 				}
 			case jsonld.JSONLD:
 				_, err := v.DocumentLoader().LoadDocument("https://unlisted.verif.test/context.jsonld")
@@ -660,6 +706,13 @@ func xGenerate(seed int64, thorough bool) []xOp {
 			}
 		}
 	}
+	// the test-only means is spelled in every case variant (the notary matches validator names case-insensitively)
+	spell := []string{"dummy", "Dummy", "DUMMY", "dUmMy"}
+	for i := range product {
+		if product[i].Dummy {
+			product[i].DummyName = spell[i%len(spell)]
+		}
+	}
 	// exhaustive in both tiers (the whole product takes ~20 s); the order is shuffled per seed
 	r.Shuffle(len(product), func(i, j int) { product[i], product[j] = product[j], product[i] })
 	ops = append(ops, product...)
@@ -690,6 +743,23 @@ func xGenerate(seed int64, thorough bool) []xOp {
 		op := base
 		op.Op, op.Strict, op.Cli, op.Tag = "load", strict, "--crypto.vault.token=s3cr3t", "cli-secret"
 		ops = append(ops, op)
+	}
+	// 4b. remote JSON-LD contexts: the real loader with the exact allow-listed URLs and hostile URLs derived from them
+	allowLists := [][]string{jsonld.DefaultAllowList(), {"https://ctx.verif.test/v1", "https://other.verif.test/ns/"}, {}}
+	for _, al := range allowLists {
+		var urls []string
+		for _, a := range al {
+			u, _ := url.Parse(a)
+			urls = append(urls, a, a+"/", a+"/evil.jsonld", a+".attacker.example/ctx", a+"x", a+"?x=1", a+"#f", strings.TrimSuffix(a, "/"),
+				strings.ToUpper(a), strings.Replace(a, "https://", "http://", 1), strings.Replace(a, "https://", "https://"+u.Host+"@attacker.example/", 1),
+				u.Scheme+"://"+u.Host+":8443"+u.Path, u.Scheme+"://"+u.Host+".attacker.example"+u.Path, u.Scheme+"://attacker.example/"+u.Host+u.Path, a[:len(a)-1], " "+a)
+		}
+		urls = append(urls, "https://unlisted.verif.test/context.jsonld", "https://attacker.example/", "", "https://")
+		for _, u := range urls {
+			for _, strict := range []bool{true, false} {
+				ops = append(ops, xOp{Op: "ctx", S: xhx(u), Strict: strict, Allow: al, Tag: "remote-context"})
+			}
+		}
 	}
 	// 5. outbound requests
 	origins := []string{"https://a.verif.test:1001", "https://b.verif.test:1002", "http://c.verif.test:1003"}
@@ -762,10 +832,23 @@ func TestVerifC20(t *testing.T) {
 	wo, wi := bufio.NewWriter(fo), bufio.NewWriter(fi)
 	var sock *xSock
 	for _, op := range ops {
+		var line string
+		if op.Op == "ctx" {
+			func() {
+				defer func() {
+					if r := recover(); r != nil {
+						line = fmt.Sprintf("ctx panic:%v", r)
+					}
+				}()
+				line = xCtx(&op)
+			}()
+		} else {
+			line = xExec(t, op, &sock)
+		}
 		b, _ := json.Marshal(op)
 		wo.Write(b)
 		wo.WriteByte('\n')
-		wi.WriteString(xExec(t, op, &sock))
+		wi.WriteString(line)
 		wi.WriteByte('\n')
 	}
 	wo.Flush()
